@@ -53,6 +53,12 @@ ASSUMPTIONS = [
     "(token_at_walk, Model get_hashes_during AtWalk): a write striking between the hashing and state.save_many is "
     "then equivalent to a write after the query (C13_inquery_write_safe); the harness strikes exactly there "
     "(wrapping the hashing worker's hash_file) and judges all later lookups against the current bytes",
+    "single-file routes (hash_file, build_entry) are judged under an in-query writer only when the caller supplied "
+    "the stat information (the row is then saved under the SUPPLIED info: Model hash_file_during AtWalk, "
+    "C13_inquery_write_safe_single); without supplied info State.save has to stat after the read - that window exists "
+    "in the unchanged code and is outside the judged routes; odb.check is not modelled here (C07)",
+    "staging for real (dry_run=False, scratch object store) answers every listed path with its own digest also when "
+    "several files of one directory have identical contents",
     "hashing is per path: _get_hashes attaches to every path the digest of that path's bytes, whatever the order in "
     "which pool workers are submitted and complete (the model has no pairing of a submission list with a result list)",
     "translated units (Gen/State.v: _checksum field list, State._get, HASH_VERSION, the non-local guards, "
@@ -501,6 +507,60 @@ class Runner:
         return (f"QHashFile {cbool(local)} {cpath(pid)} {cbytes(alg)} {iterm}",
                 vL([vN(3), vL([]) if val is None else vL([vB(val)])]))
 
+    def op_hash_file_w(self, op):
+        """single-file query that was GIVEN the stat information by its caller (hash_file(..., info=...),
+        index.build.build_entry) with a writer striking between the end of the read (_hash_file returned) and
+        state.save.  The answer of this query is judged against the bytes it read; everything later against the
+        current bytes."""
+        import dvc_data.hashfile.hash as hmod
+        from dvc_data.index.build import build_entry
+
+        pid, alg, during = op["p"], op["alg"], op["during"]
+        fid = pid[0]
+        if fid not in self.content:
+            return self.op_hash_file({"op": "hash_file", "p": pid, "alg": alg, "info": None})
+        info, iterm = self.info_for(fid, op.get("info") or "fsspec")
+        data = self.current(fid)
+        path = self.path(pid)
+        fired = []
+
+        def fire():
+            edit = self.op_replace if during["how"] == "replace" else self.op_write
+            fired.append(edit({"f": fid, "c": during["c"], "mt": "tick"})[0])
+
+        o_hf = hmod._hash_file
+
+        def p_hash_file(path_, *a, **kw):
+            res = o_hf(path_, *a, **kw)
+            if not fired and path_ == path:
+                fire()
+                self.flags.add("inquery-write:between-read-and-save(single)")
+            return res
+
+        hmod._hash_file = p_hash_file
+        try:
+            if op.get("route") == "build_entry":
+                e = build_entry(path, self.localfs, info=info, compute_hash=True, state=self.state, hash_name=alg)
+                name, val = e.hash_info.name, e.hash_info.value
+            else:
+                _, hi = hmod.hash_file(path, self.localfs, alg, state=self.state, info=info)
+                name, val = hi.name, hi.value
+        finally:
+            hmod._hash_file = o_hf
+        if not fired:
+            fire()      # served from the cache, nothing was read: the write strikes right after the query
+            self.flags.add("inquery-write:after-query")
+        if name != alg or val != digest(alg, data):
+            self.fail("C13:stale:hash_file",
+                      f"{op.get('route', 'hash_file')}({pid}, {alg}, supplied info) = {name}:{val}; the bytes it read "
+                      f"{data!r} hash to {digest(alg, data)}")
+        self.seen.setdefault(fid, set()).add(self.observe(fid)[0])
+        self.saved_once.add(fid)
+        self.flags.add("supplied-info")
+        wterm = fired[0].split(" ", 2)[2]          # "<bytes> (T ino mtime size)" of the Write / Replace
+        return (f"QHashFileW true {cpath(pid)} {cbytes(alg)} {iterm[len('(Some '):-1]} {wterm}",
+                vL([vN(3), vL([vB(val)])]))
+
     def op_get_hashes(self, op):  # noqa: C901
         from dvc_data.hashfile.build import build as obuild
         from dvc_data.index.build import build_entries
@@ -621,6 +681,8 @@ class Runner:
                 self.seen.setdefault(f, set()).add(self.observe(f)[0])
                 self.saved_once.add(f)
         self.flags.add("staging:" + route)
+        if route == "build_dir" and not op.get("dry", True) and len({truth[f] for f in fids}) < len(fids):
+            self.flags.add("staging:nondry-duplicates")
         if during is not None:
             wterm = fired[0].split(" ", 1)[1]       # "[f] <bytes> (T ino mtime size)" of the Write / Replace
             return (f"QGetHashesW {cbool(local)} {clist([f'[{f}]' for f in fids])} {cbytes(alg)} {clist(iterms)} {wterm}",
@@ -769,6 +831,13 @@ def gen_history(ctx, big=None):  # noqa: C901, PLR0912, PLR0915
         alg = rng.choice(ALGS) if rng.random() < 0.5 else "md5"
         info = rng.choice([None, None, "fsspec", "dvc"])
         if r < 0.22:
+            if alive and rng.random() < 0.2:
+                v = rng.choice(sorted(alive))
+                c = content(v, same_len=rng.random() < 0.5)
+                cur[v] = c
+                return {"op": "hash_file_w", "p": [v], "alg": alg, "info": rng.choice(["fsspec", "dvc"]),
+                        "route": rng.choice(["hash_file", "build_entry"]),
+                        "during": {"f": v, "c": c, "how": rng.choice(["write", "replace", "replace"])}}
             return {"op": "hash_file", "p": any_pid() if rng.random() < 0.1 else [rng.randrange(nfiles)],
                     "alg": alg, "info": info}
         if r < 0.36:
@@ -783,11 +852,11 @@ def gen_history(ctx, big=None):  # noqa: C901, PLR0912, PLR0915
             return {"op": "get_many", "items": items,
                     "infos": [f for f in range(nfiles) if rng.random() < 0.3]}
         if r < 0.70:
-            route = rng.choice(["direct", "direct", "build_file", "build_dir", "build_entries"])
+            route = rng.choice(["direct", "direct", "build_file", "build_dir", "build_dir", "build_entries"])
             a = "md5" if route == "build_dir" else alg
             q = {"op": "get_hashes", "route": route, "alg": a,
                  "fs": [rng.randrange(nfiles) for _ in range(rng.choice([1, 2, 3, 4]))],
-                 "dry": rng.random() < 0.7}
+                 "dry": rng.random() < 0.5}       # dry = False: build() really adds the files to the object store
             if route != "build_file" and rng.random() < 0.3:
                 q["pool"] = {"jobs": rng.choice([2, 4])}     # pool hashing, out-of-order completion
             cands = sorted(alive & set(q["fs"])) if route == "direct" else sorted(alive)
@@ -871,11 +940,31 @@ def gen_history(ctx, big=None):  # noqa: C901, PLR0912, PLR0915
             blk.append({"op": "imd5", "s": s2, "alg": rng.choice(["md5", "md5-dos2unix"])})
         return blk
 
+    def dup_block():
+        """identical contents inside the staged directory, staged for real (not a dry run), then looked up singly:
+        the staged tree must give every path the digest of ITS bytes (batch = single), duplicates included"""
+        fs_ = list(range(nfiles))
+        rng.shuffle(fs_)
+        c = rng.choice(pal)
+        blk = []
+        for f in fs_[:rng.choice([2, 2, 3])]:
+            alive.add(f)
+            cur[f] = c
+            blk.append({"op": rng.choice(["write", "replace"]) if rng.random() < 0.7 else "create", "f": f, "c": c,
+                        "mt": "tick"})
+        blk.append({"op": "get_hashes", "route": "build_dir", "alg": "md5", "fs": [], "dry": False,
+                    **({"pool": {"jobs": 2}} if rng.random() < 0.3 else {})})
+        blk.append({"op": "get_many", "items": [["p", [f]] for f in range(nfiles)], "infos": []})
+        blk.append({"op": "get_hashes", "route": "build_dir", "alg": "md5", "fs": [], "dry": rng.random() < 0.5})
+        return blk
+
     while len(ops) < nops:
         r = rng.random()
-        if r < 0.08:
+        if r < 0.05 and nfiles >= 2:
+            ops.extend(dup_block())
+        elif r < 0.12:
             ops.extend(index_block())
-        elif r < 0.46:
+        elif r < 0.48:
             ops.append(mutation())
         else:
             q = query()
@@ -1006,6 +1095,39 @@ CORPUS = [
         {"op": "get_hashes", "route": "build_dir", "alg": "md5", "fs": [], "dry": True,
          "during": {"f": 1, "c": 9, "how": "write"}},            # victim cached: the write strikes after the query
         {"op": "get", "p": [1], "info": None}, {"op": "hash_file", "p": [1], "alg": "md5", "info": None}]},
+    # single-file routes that were GIVEN the stat information (hash_file(..., info=...), build_entry) with the file
+    # replaced / rewritten between the read and state.save
+    {"nfiles": 2, "ops": [
+        {"op": "create", "f": 0, "c": 1}, {"op": "create", "f": 1, "c": 9},
+        {"op": "hash_file_w", "p": [0], "alg": "md5", "info": "fsspec", "route": "hash_file",
+         "during": {"f": 0, "c": 3, "how": "replace"}},
+        {"op": "get", "p": [0], "info": None},
+        {"op": "get_many", "items": [["p", [0]], ["p", [1]]], "infos": [0]},
+        {"op": "hash_file", "p": [0], "alg": "md5", "info": None},
+        {"op": "hash_file_w", "p": [1], "alg": "md5", "info": "dvc", "route": "build_entry",
+         "during": {"f": 1, "c": 10, "how": "write"}},
+        {"op": "get", "p": [1], "info": "fsspec"}, {"op": "hash_file", "p": [1], "alg": "md5", "info": None},
+        {"op": "get_hashes", "route": "build_dir", "alg": "md5", "fs": [], "dry": True},
+        {"op": "hash_file_w", "p": [1], "alg": "md5", "info": "fsspec", "route": "hash_file",
+         "during": {"f": 1, "c": 9, "how": "replace"}},          # cached: the write strikes after the query
+        {"op": "get_many", "items": [["p", [1]]], "infos": []},
+        {"op": "touch", "f": 0},
+        {"op": "hash_file_w", "p": [0], "alg": "sha256", "info": "fsspec", "route": "build_entry",
+         "during": {"f": 0, "c": 2, "how": "replace"}},
+        {"op": "get", "p": [0], "info": None}, {"op": "hash_file", "p": [0], "alg": "sha256", "info": "dvc"}]},
+    # identical contents in ONE directory, followed in listing order by other files, staged for real (build() adds
+    # the files to the object store), cold / warm / after writes: the staged tree gives every path ITS digest
+    {"nfiles": 5, "ops": [
+        {"op": "create", "f": 0, "c": 1}, {"op": "create", "f": 1, "c": 9}, {"op": "create", "f": 2, "c": 9},
+        {"op": "create", "f": 3, "c": 5}, {"op": "create", "f": 4, "c": 1},
+        {"op": "get_hashes", "route": "build_dir", "alg": "md5", "fs": [], "dry": False},
+        {"op": "get_many", "items": [["p", [0]], ["p", [1]], ["p", [2]], ["p", [3]], ["p", [4]]], "infos": []},
+        {"op": "hash_file", "p": [3], "alg": "md5", "info": None},
+        {"op": "get_hashes", "route": "build_dir", "alg": "md5", "fs": [], "dry": False},
+        {"op": "write", "f": 2, "c": 10, "mt": "tick"}, {"op": "write", "f": 3, "c": 9, "mt": "tick"},
+        {"op": "get_hashes", "route": "build_dir", "alg": "md5", "fs": [], "dry": False, "pool": {"jobs": 2}},
+        {"op": "get", "p": [4], "info": None}, {"op": "get_hashes", "route": "build_file", "alg": "md5", "fs": [3]},
+        {"op": "get_hashes", "route": "build_dir", "alg": "md5", "fs": [], "dry": True}]},
     # foreign rows
     {"nfiles": 1, "ops": [
         {"op": "create", "f": 0, "c": 5},
@@ -1212,7 +1334,8 @@ def run_history(ctx, case):
 
 
 def nontrivial(flags):
-    return bool(flags & {"hit-after-mutation", "inquery-write:between-hash-and-save", "batch>999", "index-update-copied", "carried-hash-current",
+    return bool(flags & {"hit-after-mutation", "inquery-write:between-hash-and-save",
+                         "inquery-write:between-read-and-save(single)", "staging:nondry-duplicates", "batch>999", "index-update-copied", "carried-hash-current",
                          "staging:pool>=2-uncached", "symlink-target-rewritten", "symlink-target-replaced"}
                 or any(f.startswith("foreign:") for f in flags))
 
@@ -1231,7 +1354,7 @@ def run(ctx):
     gen = []
     if ctx.tier == "quick":
         bigs = [ctx.rng.choice([999, 1000, 1001]), ctx.rng.choice([998, 1998, 2001])]
-        n_small = ctx.n(70, 400)
+        n_small = ctx.n(60, 400)
     else:
         bigs = [0, 1, 998, 999, 1000, 1001, 1997, 1998, 1999, 2000, 2001, 2997, 3000, 3000]
         n_small = ctx.n(70, 400)
